@@ -302,7 +302,11 @@ private:
 	template <typename PrototypeInfo>
 	static void doDispatchItem(const HeterEventQueueBase * self, const QueuedItemBase & baseItem)
 	{
-		const auto & item = static_cast<const QueuedItem<typename PrototypeInfo::ArgsTuple> &>(baseItem);
+		// The item lives in a slot owned by the queue: the stored arguments are passed as non-const
+		// lvalues, as EventQueue does, so that a prototype taking a non-const reference can be called.
+		auto & item = const_cast<QueuedItem<typename PrototypeInfo::ArgsTuple> &>(
+			static_cast<const QueuedItem<typename PrototypeInfo::ArgsTuple> &>(baseItem)
+		);
 		self->doDispatchQueuedItem<PrototypeInfo>(
 			item,
 			typename MakeIndexSequence<std::tuple_size<typename PrototypeInfo::ArgsTuple>::value>::Type()
@@ -312,7 +316,9 @@ private:
 	template <typename PrototypeInfo, typename T, size_t ...Indexes>
 	void doDispatchQueuedItem(T && item, IndexSequence<Indexes...>) const
 	{
-		this->directDispatch(item.event, std::get<Indexes>(item.arguments)...);
+		// The prototype was selected from the caller's argument types when the event was enqueued.
+		// Selecting it again from the stored (decayed) types can give another prototype.
+		this->template directDispatchAs<PrototypeInfo>(item.event, std::get<Indexes>(item.arguments)...);
 	}
 
 	template <typename PrototypeInfo, typename F>
